@@ -200,8 +200,12 @@ def bracket_balance(text):
 @st.composite
 def case(draw):
     kind = draw(st.sampled_from(["valid", "mutant", "mutant", "mutant", "random", "random",
-                                 "expr", "trailing", "unbalanced"]))
+                                 "expr", "trailing", "unbalanced", "blank"]))
     ctx = draw(st.sampled_from(["library", "library", "class"]))
+    if kind == "blank":
+        # no token at all: empty text, blanks, line ends (every entry point)
+        text = draw(st.sampled_from(["", " ", "  ", "\n", " \n ", "\t"]))
+        return dict(kind=kind, context=ctx, text=text, entry=draw(st.sampled_from(["add", "expr", "dim", "decl"])), must=None)
     if kind == "expr":
         n = draw(st.integers(1, 9))
         toks = [draw(st.sampled_from(["a", "n", "size", "len", "(", ")", "+", "-", "*", "/", ",", "3", "1.5",
@@ -315,7 +319,8 @@ def expectation(c):
 ATTR_NAMES = ["allocatable", "assumedtype", "capsule", "cdesc", "charlen", "external", "deref", "dimension",
               "hidden", "implied", "intent", "len", "len_trim", "name", "owner", "pass", "rank", "size",
               "value", "free_pattern", "pure", "readonly", "bogus"]
-ATTR_VALUE_FORMS = ["", "(3)", "(in)", "(n)", "=3", "=x", "()", "(a,b)", "(size(n))", "(size(3))", "(size(n) 2)", "(1+)",
+ATTR_VALUE_FORMS = ["", "(3)", "(in)", "(n)", "=3", "=x", "()", "(a,b)", "(size(n))", "(size(3))", "(size())", "(1+len_trim())",
+                    "(size(n) 2)", "(1+)",
                     "(\"s\")", "=1.5", "(..)", "(raw)", "(caller)"]
 ATTR_SITES = {
     "func-result-ptr": "int *func(int n) {A}",
